@@ -166,6 +166,23 @@ func RunAuth(c AuthCase) error {
 		srvReq.Header["Authorization"] = a.Marshal()
 		vmethods = []auth.VerifyMethod{auth.VerifyMethodBasic, auth.VerifyMethodDigestMD5, auth.VerifyMethodDigestSHA256}
 		wantOK = false
+	case "legacy-md5":
+		// a legacy challenge without an algorithm parameter means Digest-MD5 (RFC 2617): the client answers
+		// without algorithm; the server must accept that iff Digest-MD5 is among the enabled methods
+		legacy := headers.Authenticate{Method: headers.AuthMethodDigest, Realm: c.Realm, Nonce: c.Nonce}.Marshal()
+		se2 := &auth.Sender{WWWAuth: legacy, User: c.User, Pass: c.Pass}
+		if err := se2.Initialize(); err != nil {
+			return fmt.Errorf("Sender.Initialize on a legacy digest challenge: %w", err)
+		}
+		req2 := &base.Request{Method: base.Method(c.Method), URL: signURL, Header: base.Header{}}
+		se2.AddAuthorization(req2)
+		srvReq.Header["Authorization"] = req2.Header["Authorization"]
+		wantOK = false
+		for _, m := range methods {
+			if m == auth.VerifyMethodDigestMD5 {
+				wantOK = true
+			}
+		}
 	case "scheme":
 		vmethods = nil
 		for _, m := range methods {
